@@ -86,10 +86,34 @@ type G struct {
 	names   map[string]bool
 }
 
-func (g *G) draw(n int, label string) int { return rapid.IntRange(0, n-1).Draw(g.T, label) }
-func (g *G) flip(label string) bool       { return rapid.Bool().Draw(g.T, label) }
+// draw picks an index in [0,n) uniformly. rapid's integer generators are biased towards small values, which
+// would over-represent the first options and make every "chance" far more likely than stated, so the value is
+// assembled from unbiased bits (still drawn through rapid: cases shrink and replay; all-zero bits = first option).
+func (g *G) draw(n int, label string) int {
+	if n <= 1 {
+		return 0
+	}
+	bits := 0
+	for (1 << bits) < n {
+		bits++
+	}
+	v := 0
+	for try := 0; try < 4; try++ {
+		v = 0
+		for b := 0; b < bits; b++ {
+			if rapid.Bool().Draw(g.T, label) {
+				v |= 1 << b
+			}
+		}
+		if v < n {
+			return v
+		}
+	}
+	return v % n
+}
+func (g *G) flip(label string) bool { return rapid.Bool().Draw(g.T, label) }
 func (g *G) chance(pct int, label string) bool {
-	return rapid.IntRange(0, 99).Draw(g.T, label) < pct
+	return g.draw(100, label) < pct
 }
 
 func pickStr(g *G, pool []string, label string) string {
